@@ -18,9 +18,10 @@
 (* (clause "tmid") and that TAI = UTC + DeltaAT (clauses "assume-tai") is  *)
 (* checked within the resolution of Time, 2^-51 and 2^-49 day.             *)
 (*                                                                         *)
-(* Verdict names: a name starting with "ambiguous:" or "assume-" is not a  *)
-(* violation (decision boundary / double-precision limit / an assumption   *)
-(* of the harness); everything else is a failed clause of the property.    *)
+(* Verdict names: a name starting with "ambiguous:", "assume-" or "note:"  *)
+(* is not a violation (decision boundary / double-precision limit / an     *)
+(* assumption of the harness / a statistic: accepted, but the error is     *)
+(* above half the tolerance); everything else is a failed clause.          *)
 (***************************************************************************)
 EXTENDS TraceBase, Polyco
 
@@ -116,8 +117,6 @@ DTof(row, t) == MinutesOfDays(DySub(Tai(t), row.tai))
 (***************************************************************************)
 \* observed phase [int (BigInt), frac (dyadic)] as a dyadic
 PhaseDy(ph) == DyAdd(Dy(ph.i, 0), ph.f)
-\* |obs - v| <= tol, obs dyadic, v and tol Rat
-CloseDy(obs, v, tol) == RClose(DyRat(obs), v, tol)
 
 \* "ok" | "ambiguous" | "bad" for one predicted-phase sample against the rows in sel;
 \* fw = TRUE adds frequency * 2^-49 day (resolution of a returned Time) to the tolerance
@@ -129,11 +128,13 @@ PhaseVerdict(tb, sel, t, obs, fw) ==
               ELSE Zero
       ws(i) == DyFrac(dt[i]).k - 49
       extra(i) == IF fw THEN RMul(RAbs(Deriv(tb.rows[i].p, 1, dt[i])), TimeRes49s) ELSE RZero
-  IN IF \E i \in sel : ErrWithin(er[i], Tol8, W(i), ws(i)) THEN "ok"
+  IN IF \E i \in sel : ErrWithin(er[i], Half8, W(i), ws(i)) THEN "ok"
+     ELSE IF \E i \in sel : ErrWithin(er[i], Tol8, W(i), ws(i)) THEN "ok-over-half"
      ELSE IF \E i \in sel : RLe(ErrRat(er[i]), RAdd(Budget(tb.rows[i].p, dt[i]), extra(i)))
      THEN "ambiguous" ELSE "bad"
 VerdictNames(vs, name) ==
   (IF "bad" \in vs THEN {name} ELSE {}) \cup (IF "ambiguous" \in vs THEN {"ambiguous:double-limit"} ELSE {})
+  \cup (IF "ok-over-half" \in vs THEN {"note:over-half-tolerance"} ELSE {})
 
 \* the raise / no-raise decision common to p(t), p.f0(t), p.phasepol(t)
 \*   some time outside every merged interval  -> ValueError demanded
@@ -176,19 +177,26 @@ CallFailed(tb, e) ==
 
 \* p.f0(t, n): the (n+1)-th derivative of the phase in cycle / s^(n+1)
 \*   |obs - D| <= 1e-9 |D| + 1e-12 SUM |terms|     (D and the sum have the same denominator)
+\* "ambiguous" when only the resolution of dt (5 ps, see Budget) times the next derivative's
+\* terms explains the difference (a time within milliseconds of TMID and a vanishing COEFF)
 F0Verdict(tb, t, n, obs) ==
   LET sel == Strict(tb, DyRat(Utc(t)))
-  IN \E i \in sel :
-        LET dt == DTof(tb.rows[i], t)
-            v == Deriv(tb.rows[i].p, n + 1, dt)
-            sc == DerivScale(tb.rows[i].p, n + 1, dt)
-            er == ErrOf(obs, v)
-        IN Le(Mul(er.L, Pow10(12)), Shl(Add(MulInt(Abs(v.p), 1000), sc.p), er.g))
+      dt == [i \in sel |-> DTof(tb.rows[i], t)]
+      v == [i \in sel |-> Deriv(tb.rows[i].p, n + 1, dt[i])]
+      sc == [i \in sel |-> DerivScale(tb.rows[i].p, n + 1, dt[i])]
+      er == [i \in sel |-> ErrOf(obs, v[i])]
+  IN IF \E i \in sel : Le(Mul(er[i].L, Pow10(12)), Shl(Add(MulInt(Abs(v[i].p), 1000), sc[i].p), er[i].g))
+     THEN "ok"
+     ELSE IF \E i \in sel :
+               RLe(ErrRat(er[i]),
+                   RAdd(RAdd(RMul(Rel9, RAbs(v[i])), RMul(Floor12, sc[i])),
+                        RMul(R(FromInt(5), Pow10(12)), DerivScale(tb.rows[i].p, n + 2, dt[i]))))
+     THEN "ambiguous" ELSE "bad"
 F0Failed(tb, e) ==
   RangeNames(tb, e.t, e.out) \cup
   (IF ~Valued(tb, e.t, e.out) THEN {}
    ELSE IF Len(e.out.v) # Len(e.t) THEN {"shape"}
-   ELSE IF \A j \in 1..Len(e.t) : F0Verdict(tb, e.t[j], e.n, e.out.v[j]) THEN {} ELSE {"f0"})
+   ELSE VerdictNames({F0Verdict(tb, e.t[j], e.n, e.out.v[j]) : j \in 1..Len(e.t)}, "f0"))
 
 \* p.phasepol(t0) -> (pol, ref); the harness samples pol at x_j = 15 * xd_j seconds
 \* (so that x_j / 60 minutes is dyadic): ref + pol(x_j) must be the prediction of ONE row
@@ -238,11 +246,18 @@ TimeAtFailed(tb, e) ==
 IntervalsFailed(tb, e) ==
   IF tb.mergeAmb THEN {"ambiguous:boundary"}
   ELSE IF Len(e.out) # Len(tb.merged) THEN {"intervals"}
-  ELSE IF ~SP!IsAscendingEnumOf(tb.merged, DeclaredOfSpans(tb.spans)) THEN {"merge-spec"}
+  ELSE IF ~SP!IsAscendingEnumOf(tb.merged, DeclaredOfSpans(tb.spans)) THEN {"assume-merge-spec"}
   ELSE IF \A k \in 1..Len(tb.merged) :
              /\ RClose(DyRat(DySub(DyAdd(e.out[k][1].u1, e.out[k][1].u2), JD0)), tb.merged[k].a, TimeRes49)
              /\ RClose(DyRat(DySub(DyAdd(e.out[k][2].u1, e.out[k][2].u2), JD0)), tb.merged[k].b, TimeRes49)
        THEN {} ELSE {"intervals"}
+
+\* self-test of the decimal reader against Python's fractions.Fraction (machinery, like the
+\* kernel self-test): the numeral's bytes and the exact value p/q it denotes (or bad = TRUE)
+DecimalFailed(e) ==
+  LET d == Decimal(e.s)
+  IN IF e.bad THEN (IF d.ok THEN {"assume-decimal"} ELSE {})
+     ELSE IF d.ok /\ REq(DecRat(d), R(e.val.p, e.val.q)) THEN {} ELSE {"assume-decimal"}
 
 TimesOf(e) == IF e.ev = "phasepol" THEN <<e.t>> ELSE e.t
 TaiNames(e) ==
@@ -253,6 +268,7 @@ TaiNames(e) ==
 Failed(e, tb) ==
   IF e.ev = "load" THEN LoadFailed(e, tb)
   ELSE IF e.ev = "subset" THEN {}
+  ELSE IF e.ev = "decimal" THEN DecimalFailed(e)
   ELSE IF tb.rows = <<>> THEN {"ambiguous:no-table"}
   ELSE TaiNames(e) \cup
        (IF e.ev = "call" THEN CallFailed(tb, e)
